@@ -386,7 +386,7 @@ def corr_css_concrete(check, ctx, c, rng):
             try:
                 for p in parts:
                     outs.append(e.encode(p, False))
-                fin = e.encode('', True)
+                outs.append(e.encode('', True))
             except UnicodeError:
                 raised = True
             except (LookupError, ValueError):
@@ -398,18 +398,16 @@ def corr_css_concrete(check, ctx, c, rng):
                 continue
             ctx.case(key=('cenc', tuple(parts), given), nontrivial=len(parts) > 1,
                      kind='css-cenc' + (':raises' if one is None else ''))
-            got_total = None if raised else b''.join(x for x in outs + [fin] if x)
+            got_total = None if raised else b''.join(x for x in outs if x)
             if got_total != one:
                 ctx.violate('incremental encoder = one-shot for every chunking (errors included)', w,
                             {'incremental': 'raises' if raised else got_total.hex(),
                              'one_shot': 'raises' if one is None else one.hex()})
                 continue
-            if raised:
-                continue
-            got = '%s | %s | %s' % (' '.join(encb(o) if o else '-' for o in outs), encb(fin) if fin else '-', encb(one))
+            got = '%s | %s | %s' % (' '.join([encb(o) if o else '-' for o in outs] + (['RAISE'] if raised else [])),
+                                    'RAISE' if raised else encb(got_total), 'RAISE' if one is None else encb(one))
             if m is not None and norm(m) != norm(got):
                 ctx.disagree('IncrementalEncoder over CPython inner codecs', w, got, m)
-
 
 # ---------------------------------------------------------------------------------------------------
 # the stream classes: model `rstep cpyInner` / `wstep cpyInnerEnc` (Model/CodecStream.lean)
